@@ -259,6 +259,9 @@ func genC13(r *RNG, tier string, run int) *Trace {
 	if run%397 == 5 {
 		return genMultiBig(r)
 	}
+	if run%97 == 11 {
+		return genC13ManyResets(r)
+	}
 	if run%3 == 2 || run%12 == 0 {
 		return genMultiTrace(r, tier)
 	}
@@ -808,6 +811,71 @@ func genC07(r *RNG, tier string, run int) *Trace {
 		for i := range t.Ops {
 			t.Ops[i].N = r.Pick(1, 2, 3, 8, 64, 1+r.Intn(bc.BufferSize), bc.BufferSize, bc.BufferSize+r.Intn(8))
 			t.Ops[i].X = r.Pick(0, 0, 1, 2)
+		}
+	}
+	return t
+}
+
+// genC13ManyResets: one parser instance reused for 255 to 520 short messages,
+// each handed over with Reset(data) and parsed; message j+256 is a lightly
+// mutated copy of message j, so that whatever a parser keeps "per Reset" in a
+// narrow counter or generation stamp meets its own past. The fresh twin of
+// oracle 1 starts at the last Reset.
+func genC13ManyResets(r *RNG) *Trace {
+	typ := parserTypes[r.Intn(len(parserTypes))]
+	if r.Chance(0.25) {
+		typ = "BUP" // the dictionary with the most per-bucket state
+	}
+	spec := genParserSpec(r, typ, "small")
+	spec.Target, spec.Plan = "", nil
+	if spec.BufferSize != 0 && spec.BufferSize < 128 {
+		spec.BufferSize = 128 + r.Intn(200)
+		if spec.ShrinkSize >= spec.BufferSize {
+			spec.ShrinkSize = spec.BufferSize / 2
+		}
+	}
+	switch typ {
+	case "HP", "BHP":
+		spec.InputLen, spec.HashBits = r.Range(3, 6), r.Range(6, 14)
+	case "BUP":
+		spec.InputLen, spec.HashBits, spec.BucketSize = r.Range(3, 6), r.Range(8, 16), r.Pick(1, 2, 4, 4)
+	case "DHP", "BDHP":
+		spec.HashBits1, spec.HashBits2 = r.Range(6, 12), r.Range(6, 12)
+	}
+	k := r.Pick(255, 256, 257, 258, 300, 513, 520)
+	base := genInput(r, r.Range(20, 80), "iid4")
+	msgs := make([][]byte, k+1)
+	t := &Trace{World: "parser", Prop: "C13", P: &spec}
+	t.Note = fmt.Sprintf("many resets k=%d", k)
+	for j := range msgs {
+		src, rate := base, 0.12
+		if j >= 256 {
+			src, rate = msgs[j-256], 0.03
+		}
+		m := append([]byte(nil), src...)
+		if j >= 256 {
+			// the same strings again, some of them damaged where they stood
+			// and intact further back
+			m = m[:len(base)]
+			rate = 0.1
+		}
+		for i := range m {
+			if r.Chance(rate) {
+				m[i] = byte(0x80 + r.Intn(64))
+			}
+		}
+		if j >= 256 {
+			a := r.Intn(len(base))
+			m = append(m, src[a:min(len(src), a+8+r.Intn(24))]...)
+		}
+		msgs[j] = m
+		t.Input = append(t.Input, m...)
+		if j == k {
+			t.ResetAt = len(t.Ops)
+		}
+		t.Ops = append(t.Ops, Op{K: "Reset", N: len(m), X: r.Pick(0, 1, 2, 3, 4)})
+		for i := 1 + r.Intn(2); i > 0; i-- {
+			t.Ops = append(t.Ops, Op{K: "Parse", Re: r.Chance(0.7)})
 		}
 	}
 	return t
